@@ -466,7 +466,11 @@ class Fxp():
         if dtype is not None:
             signed, n_word, n_frac, complex_flag = self._parseformatstr(dtype)
 
-            self.vdtype = complex if complex_flag else self.vdtype
+            if complex_flag:
+                self.vdtype = complex
+            elif self.vdtype == complex and not np.iscomplexobj(self.val):
+                # (a complex declaration over real codes - made by an earlier resize - does not survive a string without the suffix)
+                self.vdtype = float
 
         # n_int defined:
         if n_word is None and n_frac is not None and n_int is not None:
